@@ -198,8 +198,15 @@ def _ipv6_builders():
         h = cls(raw_body=self.ctx.bytes(self.n(kind + 'body'), blen), payload_length=blen); elen += 2 + blen
       h.next_header_type = chain[j + 1]
       hdrs.append(h)
-    p.extension_headers = hdrs
-    p.next_header_type = chain[0]
+    if hdrs and bool(self.ctx.bool(self.n('via_add_header'))):
+      # the other public way to assemble the chain: add_header() appends and links each header to its predecessor; the caller names what follows the last one
+      for h in hdrs:
+        h.next_header_type = None
+        p.add_header(h)
+      hdrs[-1].next_header_type = nh
+    else:
+      p.extension_headers = hdrs
+      p.next_header_type = chain[0]
     l = L(p, dict(v=6, tc=p.tc, flow=p.flow, hop_limit=p.hop_limit, srcip=p.srcip, dstip=p.dstip, next_header_type=chain[0],
                   extension_headers=[(type(h).__name__, h.next_header_type, h.raw_body) for h in hdrs]), 40 + elen)
     l.upper = nh
